@@ -345,9 +345,16 @@ func UpdateRefWithSchema(sp *spec.Swagger, key string, sch *spec.Schema) error {
 			return ErrUnhandledParentType(key, value)
 		}
 	case *spec.SchemaOrArray:
+		if refable.Schema == nil {
+			// a key which no longer designates a single schema (e.g. "items" was replaced by a tuple meanwhile)
+			return ErrNoSchemaWithRef(key, value)
+		}
 		*refable.Schema = *sch
 	// NOTE: can't have case *spec.SchemaOrBool = parent in this case is *Schema
 	case *spec.SchemaOrBool:
+		if refable.Schema == nil {
+			return ErrNoSchemaWithRef(key, value)
+		}
 		*refable.Schema = *sch
 	default:
 		return ErrNoSchemaWithRef(key, value)
